@@ -1,4 +1,5 @@
 import Pcore.Proofs.LatTransDAux
+import Pcore.Proofs.LatEq
 set_option linter.unusedSimpArgs false
 set_option linter.unusedVariables false
 /-! C03: reflexivity for EVERY well-formed type, the built-in aliases Data / RichData nested anywhere (the proof of `asg_refl` needed the
@@ -139,5 +140,215 @@ theorem mono_variant_all (pre post : List Ty) (a b : Ty) (hsib : ∀ t ∈ pre +
   · exact wv_all cfg sfh (by simp [ht]) (hsib t (by simp [ht]))
   · exact wv_all cfg sfh (by simp) h
   · exact wv_all cfg sfh (by simp [ht]) (hsib t (by simp [ht]))
+
+/-- equal types accept each other — every well-formed pair, aliases nested anywhere -/
+theorem eq_asg_all : ∀ (n : Nat) (a b : Ty), a.w + b.w ≤ n → Ty.WF cfg a → Ty.WF cfg b →
+    tyEq a b = true → asg cfg sfh a b = true ∧ asg cfg sfh b a = true := by
+  intro n
+  induction n with
+  | zero => intro a b h; have := Ty.w_pos a; omega
+  | succ n ih =>
+    intro a b hw wa wb h
+    have same : a = b → asg cfg sfh a b = true ∧ asg cfg sfh b a = true := by
+      intro hab; subst hab
+      have := asg_refl_all cfg sfh a.w a (Nat.le_refl _) wa
+      exact ⟨this, this⟩
+    unfold tyEq at h
+    cases a with
+    | any => cases b <;> simp at h; exact same rfl
+    | unit => cases b <;> simp at h; exact same rfl
+    | undef => cases b <;> simp at h; exact same rfl
+    | dflt => cases b <;> simp at h; exact same rfl
+    | scalar => cases b <;> simp at h; exact same rfl
+    | scalarData => cases b <;> simp at h; exact same rfl
+    | numeric => cases b <;> simp at h; exact same rfl
+    | data => cases b <;> simp at h; exact same rfl
+    | richData => cases b <;> simp at h; exact same rfl
+    | str => cases b <;> simp at h; exact same rfl
+    | bin => cases b <;> simp at h; exact same rfl
+    | int r => cases b <;> simp at h; subst h; exact same rfl
+    | float lo hi => cases b <;> simp at h; obtain ⟨h1, h2⟩ := h; subst h1; subst h2; exact same rfl
+    | bool v => cases b <;> simp at h; subst h; exact same rfl
+    | tspan r => cases b <;> simp at h; subst h; exact same rfl
+    | strSz r => cases b <;> simp at h; subst h; exact same rfl
+    | strVal s => cases b <;> simp at h; subst h; exact same rfl
+    | regexp s => cases b <;> simp at h; subst h; exact same rfl
+    | coll r => cases b <;> simp at h; subst h; exact same rfl
+    | object p => cases b <;> simp at h; subst h; exact same rfl
+    | enum vs ci =>
+      cases b <;> simp only [] at h <;> (first | contradiction | skip)
+      rename_i vs' ci'
+      simp only [Bool.and_eq_true, beq_iff_eq] at h
+      obtain ⟨⟨⟨hci, hlen⟩, h1⟩, h2⟩ := h
+      subst hci
+      unfold Ty.WF at wa wb
+      exact ⟨viaR cfg sfh rfl (enum_eq_asg cfg sfh vs vs' ci wb hlen h1),
+             viaR cfg sfh rfl (enum_eq_asg cfg sfh vs' vs ci wa hlen.symm h2)⟩
+    | pattern rs =>
+      cases b <;> simp only [] at h <;> (first | contradiction | skip)
+      rename_i rs'
+      simp only [Bool.and_eq_true, beq_iff_eq] at h
+      obtain ⟨⟨hlen, h1⟩, h2⟩ := h
+      have key : ∀ (xs ys : List String), xs.length = ys.length → subsetStr ys xs = true →
+          asgRecv cfg sfh (.pattern xs) (.pattern ys) = true := by
+        intro xs ys hl hs
+        unfold asgRecv
+        by_cases he : xs.isEmpty = true
+        · simp [he]
+        · have he' : xs.isEmpty = false := by simpa using he
+          have : ys.isEmpty = false := by
+            cases ys with
+            | nil => simp at hl; simp [hl] at he'
+            | cons _ _ => rfl
+          simp [he', this, hs]
+      exact ⟨viaR cfg sfh rfl (key rs rs' hlen h2), viaR cfg sfh rfl (key rs' rs hlen.symm h1)⟩
+    | array e r =>
+      cases b <;> simp only [] at h <;> (first | contradiction | skip)
+      rename_i e' r'
+      simp only [Bool.and_eq_true, beq_iff_eq] at h
+      obtain ⟨hr, he⟩ := h
+      subst hr
+      unfold Ty.WF at wa wb
+      simp only [Ty.w] at hw
+      obtain ⟨h1, h2⟩ := ih e e' (by omega) wa wb he
+      exact ⟨viaR cfg sfh rfl (by unfold asgRecv; simp [Rng.sub_refl, h1]),
+             viaR cfg sfh rfl (by unfold asgRecv; simp [Rng.sub_refl, h2])⟩
+    | hash k v r =>
+      cases b <;> simp only [] at h <;> (first | contradiction | skip)
+      rename_i k' v' r'
+      simp only [Bool.and_eq_true, beq_iff_eq] at h
+      obtain ⟨⟨hr, hk⟩, hv⟩ := h
+      subst hr
+      unfold Ty.WF at wa wb
+      simp only [Ty.w] at hw
+      obtain ⟨k1, k2⟩ := ih k k' (by omega) wa.1 wb.1 hk
+      obtain ⟨v1, v2⟩ := ih v v' (by omega) wa.2 wb.2 hv
+      exact ⟨viaR cfg sfh rfl (by unfold asgRecv; simp [Rng.sub_refl, k1, v1]),
+             viaR cfg sfh rfl (by unfold asgRecv; simp [Rng.sub_refl, k2, v2])⟩
+    | typ t =>
+      cases b <;> simp only [] at h <;> (first | contradiction | skip)
+      rename_i t'
+      unfold Ty.WF at wa wb
+      simp only [Ty.w] at hw
+      obtain ⟨h1, h2⟩ := ih t t' (by omega) wa wb h
+      exact ⟨mono_typ cfg sfh t t' h1, mono_typ cfg sfh t' t h2⟩
+    | sensitive t =>
+      cases b <;> simp only [] at h <;> (first | contradiction | skip)
+      rename_i t'
+      unfold Ty.WF at wa wb
+      simp only [Ty.w] at hw
+      obtain ⟨h1, h2⟩ := ih t t' (by omega) wa wb h
+      exact ⟨mono_sensitive cfg sfh t t' h1, mono_sensitive cfg sfh t' t h2⟩
+    | iterable t =>
+      cases b <;> simp only [] at h <;> (first | contradiction | skip)
+      rename_i t'
+      unfold Ty.WF at wa wb
+      simp only [Ty.w] at hw
+      obtain ⟨h1, h2⟩ := ih t t' (by omega) wa wb h
+      exact ⟨mono_iterable cfg sfh t t' h1, mono_iterable cfg sfh t' t h2⟩
+    | optional t =>
+      cases b <;> simp only [] at h <;> (first | contradiction | skip)
+      rename_i t'
+      unfold Ty.WF at wa wb
+      simp only [Ty.w] at hw
+      obtain ⟨h1, h2⟩ := ih t t' (by omega) wa wb h
+      exact ⟨mono_optional_all cfg sfh t t' h1, mono_optional_all cfg sfh t' t h2⟩
+    | notUndef t =>
+      cases b <;> simp only [] at h <;> (first | contradiction | skip)
+      rename_i t'
+      unfold Ty.WF at wa wb
+      simp only [Ty.w] at hw
+      obtain ⟨h1, h2⟩ := ih t t' (by omega) wa wb h
+      exact ⟨mono_notUndef cfg sfh t t' h1, mono_notUndef cfg sfh t' t h2⟩
+    | variant ts =>
+      cases b <;> simp only [] at h <;> (first | contradiction | skip)
+      rename_i ts'
+      simp only [Bool.and_eq_true, beq_iff_eq] at h
+      obtain ⟨⟨_, h1⟩, h2⟩ := h
+      unfold Ty.WF at wa wb
+      simp only [Ty.w] at hw
+      rw [tyEqIncl_iff] at h1 h2
+      constructor
+      · -- every member of ts' is Equals to (hence accepted by) a member of ts
+        rw [asg_variant_r]; simp only [Bool.or_eq_true]; right
+        rw [asgAllR_iff]
+        intro t' hm'
+        obtain ⟨t, hm, he⟩ := h2 t' hm'
+        have hwt := Ty.w_lt_wl hm; have hwt' := Ty.w_lt_wl hm'
+        obtain ⟨x, _⟩ := ih t t' (by omega) (wa t hm) (wb t' hm') he
+        exact wv_all cfg sfh hm x
+      · rw [asg_variant_r]; simp only [Bool.or_eq_true]; right
+        rw [asgAllR_iff]
+        intro t hm
+        obtain ⟨t', hm', he⟩ := h1 t hm
+        have hwt := Ty.w_lt_wl hm; have hwt' := Ty.w_lt_wl hm'
+        obtain ⟨x, _⟩ := ih t' t (by omega) (wb t' hm') (wa t hm) he
+        exact wv_all cfg sfh hm' x
+    | tuple ts g =>
+      cases b <;> simp only [] at h <;> (first | contradiction | skip)
+      rename_i ts' g'
+      simp only [Bool.and_eq_true, beq_iff_eq] at h
+      obtain ⟨⟨hlen, hsz⟩, hl⟩ := h
+      unfold Ty.WF at wa wb
+      simp only [Ty.w] at hw
+      have hget := tyEqL_get ts ts' hlen hl
+      have key : ∀ (xs ys : List Ty) (gx gy : Option Rng), xs.length = ys.length → tupleSize xs gx = tupleSize ys gy →
+          (∀ (i : Nat) (x y : Ty), xs[i]? = some x → ys[i]? = some y → asg cfg sfh x y = true) →
+          asgRecv cfg sfh (.tuple xs gx) (.tuple ys gy) = true := by
+        intro xs ys gx gy hl hs hp
+        unfold asgRecv
+        simp only [hs, Rng.sub_refl, Bool.true_and, Bool.or_eq_true]
+        by_cases hx : xs = []
+        · left; simp [hx]
+        · right
+          have hy : ys ≠ [] := by intro hy; subst hy; simp at hl; exact hx hl
+          have hne : ¬ (ys.isEmpty = true) := by simp [List.isEmpty_iff, hy]
+          rw [if_neg hne, tupZip_iff cfg sfh xs ys _ hx hy]
+          intro i x y _ _ hxi hyi
+          rw [hl] at hxi
+          exact hp _ x y hxi hyi
+      constructor
+      · apply viaR cfg sfh rfl
+        apply key ts ts' g g' hlen hsz
+        intro i x y hx hy
+        have hmx := List.mem_of_getElem? hx; have hmy := List.mem_of_getElem? hy
+        have := Ty.w_lt_wl hmx; have := Ty.w_lt_wl hmy
+        exact (ih x y (by omega) (wa x hmx) (wb y hmy) (hget i x y hx hy)).1
+      · apply viaR cfg sfh rfl
+        apply key ts' ts g' g hlen.symm hsz.symm
+        intro i y x hy hx
+        have hmx := List.mem_of_getElem? hx; have hmy := List.mem_of_getElem? hy
+        have := Ty.w_lt_wl hmx; have := Ty.w_lt_wl hmy
+        exact (ih x y (by omega) (wa x hmx) (wb y hmy) (hget i x y hx hy)).2
+    | struct ms =>
+      cases b <;> simp only [] at h <;> (first | contradiction | skip)
+      rename_i ms'
+      simp only [Bool.and_eq_true, beq_iff_eq] at h
+      obtain ⟨hlen, hm⟩ := h
+      unfold Ty.WF at wa wb
+      simp only [Ty.w] at hw
+      obtain ⟨hnames, hall⟩ := tyEqM_spec ms ms' hlen hm
+      constructor
+      · apply viaR cfg sfh rfl
+        apply struct_eq_asg cfg sfh ms ms' wa.1 wb.1 hnames
+        intro m hmm
+        obtain ⟨m', hm', h1, h2, h3⟩ := hall m hmm
+        have := Ty.w_lt_wm hmm; have := Ty.w_lt_wm hm'
+        exact ⟨m', hm', h1, h2, (ih m.2.2 m'.2.2 (by omega) (wa.2 m hmm) (wb.2 m' hm') h3).1⟩
+      · apply viaR cfg sfh rfl
+        apply struct_eq_asg cfg sfh ms' ms wb.1 wa.1 hnames.symm
+        intro m' hm'
+        -- the partner of m' : by names (pairwise different on both sides)
+        have : m'.1 ∈ ms.map (·.1) := by rw [hnames]; exact List.mem_map_of_mem hm'
+        simp only [List.mem_map] at this
+        obtain ⟨m, hmm, hmn⟩ := this
+        obtain ⟨m2, hm2, h1, h2, h3⟩ := hall m hmm
+        have hm2eq : m2 = m' := by
+          have := mem_unique_name wb.1 hm' hm2 (by rw [h1, hmn])
+          exact this
+        subst hm2eq
+        have := Ty.w_lt_wm hmm; have := Ty.w_lt_wm hm'
+        exact ⟨m, hmm, h1.symm, h2.symm, (ih m.2.2 m2.2.2 (by omega) (wa.2 m hmm) (wb.2 m2 hm2) h3).2⟩
+
 
 end Pcore.Lat
